@@ -193,3 +193,9 @@ Definition linv_b (st : ostate) : bool :=
 
 Definition os_same (a b : ostate) : bool :=
   same_elems (os_rows a) (os_rows b) && sd_same (os_sd a) (os_sd b) && same_elems (os_loaded a) (os_loaded b).
+(* the recorded state may have MORE loaded items than the model step predicts when the whole-collection load was batched with other
+   owners (nplus1): those extra items do not point to this owner (load_item is then a no-op on the SetData) *)
+Definition os_same_ext (model real : ostate) : bool :=
+  same_elems (os_rows model) (os_rows real) && sd_same (os_sd model) (os_sd real) &&
+  subsetb (os_loaded model) (os_loaded real) &&
+  forallb (fun y => memn y (os_loaded model) || negb (memn y (os_rows real))) (os_loaded real).
